@@ -10,7 +10,8 @@
      agent/consul/state/peering.go    exportedServicesForPeerTxn
    as they are (including what is wrong in them).  No proofs in this file.
 
-   Scope of the catalog verbs: rows of the three catalog tables are keyed by
+   Scope of the catalog verbs (state of /repo: updateMeshTopology keeps the references of other
+   instances, acb191c, and skips imported instances, e4a855c): rows of the three catalog tables are keyed by
    (peer, node), (peer, node, service id), (peer, node, check id) exactly as the memdb
    indexers build the keys (indexWithPeerName); the verbs are modelled for peer-keyed rows
    (peer <> ""), which is all the peerstream handlers ever pass.  Names are taken to be
@@ -207,22 +208,32 @@ Definition topo_put (u d : string) (refs : list string) (l : list trow) : list t
 
 Definition uid (node sid : string) : string := node ++ "/" ++ sid.
 
-(* updateMeshTopology: "TODO(peering): make this peering aware".  The mapping found for
-   (upstream, downstream) is copied into a variable that shadows [mapping], so a fresh row
-   holding only this proxy's reference always replaces what was there; upstreams of the
-   previous registration that are gone are deleted for that downstream whoever else refers
-   to them. *)
+(* updateMeshTopology.  The (upstream, downstream) row gains the reference of this instance
+   (the references of other instances are kept); upstreams of the previous registration that
+   are gone are deleted for that downstream (DeleteAll, whoever else refers to them).  The
+   key has no peer: "TODO(peering): make this peering aware" — until then the function
+   returns at once for an imported instance (svc.PeerName != ""), like cleanupMeshTopology. *)
+Definition topo_refs (u d : string) (l : list trow) : list string :=
+  match find (topo_at u d) l with Some t => t_refs t | None => [] end.
+
+Definition add_ref (r : string) (refs : list string) : list string :=
+  if existsb (seqb r) refs then refs else (refs ++ [r])%list.
+
 Definition update_topo (c : cat) (s : svc) (existing : option svc) : cat :=
   let old := match existing with Some e => s_ups e | None => [] end in
   let down := s_dest s in
-  let t1 := fold_left (fun t u => topo_put u down [uid (s_node s) (s_id s)] t) (s_ups s) (topo c) in
+  let t1 := fold_left (fun t u => topo_put u down (add_ref (uid (s_node s) (s_id s)) (topo_refs u down t)) t)
+                      (s_ups s) (topo c) in
   let t2 := fold_left (fun t u => if existsb (seqb u) (s_ups s) then t else topo_del u down t) old t1 in
   set_topo c t2.
+
+(* "if svc.Kind == ConnectProxy || svc.Connect.Native" and not an imported instance *)
+Definition topo_applies (s : svc) : bool := is_connect s && seqb (s_peer s) "".
 
 Definition ensure_service (c : cat) (s : svc) : res cat :=
   let p := s_peer s in
   let existing := get_svc c p (s_node s) (s_id s) in
-  let c1 := if is_connect s then update_topo c s existing else c in
+  let c1 := if topo_applies s then update_topo c s existing else c in
   match get_node c1 p (s_node s) with
   | None => Err e_missing_node
   | Some _ =>
